@@ -32,6 +32,8 @@ struct Params {
     seed: u64,
     with_weight_update: bool,
     via_template: bool,
+    /// a better foreign solution is recorded as the run's best individual before the swarm exists
+    warm_start: bool,
     f: RealFn,
 }
 
@@ -206,6 +208,21 @@ fn observe(rec: &Mutex<Rec>, prm: &Params, ev: StepEvent<'_, P>, state: &State<P
     }
 }
 
+/// Records the (known) optimum of the problem as the run's best individual: PSO as a later stage of a run.
+#[derive(Clone, serde::Serialize)]
+struct InjectBest;
+impl mahf::Component<P> for InjectBest {
+    fn execute(&self, problem: &P, state: &mut State<P>) -> mahf::ExecResult<()> {
+        let sol: Vec<f64> = match problem.f {
+            RealFn::ShiftedSphere => (0..problem.domains.len()).map(|i| (0.25 * (i as f64 + 1.0)).clamp(problem.domains[i].0, problem.domains[i].1)).collect(),
+            _ => problem.domains.iter().map(|d| 0.0f64.clamp(d.0, d.1)).collect(),
+        };
+        let v = problem.f_pure(&sol);
+        state.borrow_mut::<mahf::state::common::BestIndividual<P>>().update(&mahf::Individual::new(sol, v.try_into().unwrap()));
+        Ok(())
+    }
+}
+
 fn build(prm: &Params) -> Result<Configuration<P>, String> {
     if prm.via_template {
         return pso::real_pso::<P>(
@@ -228,7 +245,11 @@ fn build(prm: &Params) -> Result<Configuration<P>, String> {
         },
         LessThanN::iterations(prm.n),
     );
-    Ok(Configuration::builder().do_(initialization::RandomSpread::new(prm.swarm)).evaluate().update_best_individual().do_(inner).build())
+    let mut b = Configuration::builder().do_(initialization::RandomSpread::new(prm.swarm)).evaluate().update_best_individual();
+    if prm.warm_start {
+        b = b.do_(Box::new(InjectBest));
+    }
+    Ok(b.do_(inner).build())
 }
 
 fn run(rep: &Reporter, prm: &Params) {
@@ -266,7 +287,7 @@ fn run(rep: &Reporter, prm: &Params) {
 
 fn main() {
     let rep = Reporter::from_args("C18");
-    rep.rule("runs of real_pso and of harness-assembled pso variants (without weight update, with increasing/decreasing/constant schedules, c1=c2=0) over swarm sizes 1..20, dimensions 1..5, domains, (start,end) weights in {(.9,.4),(.5,.5),(0,0),(.4,.9)}, c in {0,1.7}, v_max in {1e-3*width,.1,1,10}, n<=40, seeds; observed at the step-observer hook: after every velocity update |v|<=v_max, x_after == x_before + v_new bit-exact, v_new within clamp(w_stored*v_old + [0,c1](pbest-x) + [0,c2](gbest-x)) (exact scaling when c1=c2=0); after every weight update w == (end-start)*progress + start; after every memory update pbest_i == first best evaluated position of particle i (harness keeps the per-particle history), never worse, gbest == best pbest; after every component the three collections have one entry per particle. distinct_nontrivial = distinct parameter cells");
+    rep.rule("runs of real_pso and of harness-assembled pso variants (PSO as a later stage after a better foreign solution became the run's best individual, without weight update, with increasing/decreasing/constant schedules, c1=c2=0) over swarm sizes 1..20, dimensions 1..5, domains, (start,end) weights in {(.9,.4),(.5,.5),(0,0),(.4,.9)}, c in {0,1.7}, v_max in {1e-3*width,.1,1,10}, n<=40, seeds; observed at the step-observer hook: after every velocity update |v|<=v_max, x_after == x_before + v_new bit-exact, v_new within clamp(w_stored*v_old + [0,c1](pbest-x) + [0,c2](gbest-x)) (exact scaling when c1=c2=0); after every weight update w == (end-start)*progress + start; after every memory update pbest_i == first best evaluated position of particle i (harness keeps the per-particle history), never worse, gbest == best pbest; after every component the three collections have one entry per particle. distinct_nontrivial = distinct parameter cells");
     rep.assume("the population is evaluated once per pass by the evaluation step; component names identify the PSO steps");
     let mut rng = SplitMix64::new(rep.seed).fork(0xC18);
     let weights = [(0.9, 0.4), (0.5, 0.5), (0.0, 0.0), (0.4, 0.9)];
@@ -292,6 +313,7 @@ fn main() {
             seed: rng.below(1 << 40),
             with_weight_update: via_template || rng.chance(0.7),
             via_template,
+            warm_start: !via_template && rng.chance(0.3),
             f: *rng.pick(&[RealFn::Sphere, RealFn::Rastrigin, RealFn::Plateau, RealFn::ShiftedSphere]),
         });
     }
